@@ -204,3 +204,51 @@ fix_bufgrow_good (FILE *fp, size_t *lenp)
   *lenp = alloc_size;
   return str;
 }
+
+/* negative: the invariant form - the buffer starts with room and is grown as soon as the last free byte has been used */
+char *
+fix_bufgrow_good2 (FILE *fp, size_t *lenp)
+{
+  size_t alloc_size = 16, str_size = 0;
+  char *str = (char *) (*__gmp_allocate_func) (alloc_size);
+  int c = getc (fp);
+  while (c != EOF && c != ' ')
+    {
+      str[str_size++] = c;
+      c = getc (fp);
+      if (str_size == alloc_size)
+        {
+          size_t nsize = alloc_size * 3 / 2;
+          str = (char *) (*__gmp_reallocate_func) (str, alloc_size, nsize);
+          alloc_size = nsize;
+        }
+    }
+  str[str_size] = 0;
+  *lenp = alloc_size;
+  return str;
+}
+
+/* positive: the same form, but two bytes can be used between growth tests */
+char *
+fix_bufgrow_bad2 (FILE *fp, size_t *lenp)
+{
+  size_t alloc_size = 16, str_size = 0;
+  char *str = (char *) (*__gmp_allocate_func) (alloc_size);
+  int c = getc (fp);
+  while (c != EOF && c != ' ')
+    {
+      str[str_size++] = c;
+      if (c == '\\')
+        str[str_size++] = getc (fp);
+      c = getc (fp);
+      if (str_size == alloc_size)
+        {
+          size_t nsize = alloc_size * 3 / 2;
+          str = (char *) (*__gmp_reallocate_func) (str, alloc_size, nsize);
+          alloc_size = nsize;
+        }
+    }
+  str[str_size] = 0;
+  *lenp = alloc_size;
+  return str;
+}
